@@ -36,6 +36,9 @@ ACK = 'MSH|^~\\&|A|B|||20200229||ACK^R01^ACK|1|P|%s\rMSA|AA|1'
 MSHONLY = 'MSH|^~\\&|A|B|||20200229||ACK^R01^ACK|1|P|%s'
 
 
+SHARED_HL = [(6, 7), (3, 4), (0, 1)]
+
+
 def report(m):
     r = m.validate(return_errors=True)
     return (r.is_valid, tuple(str(e) for e in r.errors), tuple(str(w) for w in r.warnings))
@@ -56,6 +59,8 @@ def corpus():
     c['fac_ST'] = ('S', lambda v, l: lambda: datatype_factory('ST', 'a|b#c\\L\\d', v, l).to_er7())
     c['fac_bad'] = ('S', lambda v, l: lambda: datatype_factory('NM', 'abc', v, l).to_er7())
     c['st_er7'] = ('S', lambda v, l: lambda: st_of(v)('x\\y|z#w', highlights=((0, 1), (2, 3))).to_er7())
+    # highlight ranges given as a list that both threads pass to their own datatype object (the caller owns the list)
+    c['st_shared_hl'] = ('X', lambda v, l: lambda: (st_of(v)('abcdefgh', highlights=SHARED_HL).to_er7(), tuple(SHARED_HL)))
     c['subcomp'] = ('M', lambda v, l: lambda: SubComponent(datatype='ST', value='x', version=v, validation_level=l).to_er7())
     c['component'] = ('M', lambda v, l: lambda: _comp(v, l))
     c['field'] = ('M', lambda v, l: lambda: _field(v, l))
@@ -250,6 +255,10 @@ def harnesses(tier):
         hs.append(((a, b), same2, 1, gran))
     for a, b in (list(itertools.combinations(M, 2))[::3] if q else itertools.combinations(M, 2)):
         hs.append(((a, b), mixed, 1, gran))
+    # class X: bodies that share an object of the caller's; explored with themselves and with one small body
+    hs.append((('st_shared_hl', 'st_shared_hl'), same2, 2, gran))
+    hs.append((('st_shared_hl', 'st_shared_hl'), mixed, 2, gran))
+    hs.append((('st_shared_hl', 'st_er7'), same2, 1, gran))
     tol2 = [('2.5', TOLERANT), ('2.5', TOLERANT)]
     if q:
         # large bodies: both serial orders (bound 0) in quick; preemptions in thorough
